@@ -272,6 +272,39 @@ theorem passive_reason (pts : List (Pt K)) (c : Cluster K) (o : Obs K) :
     · exact Or.inl h
     · exact Or.inr (Or.inl (by rw [← reqOk_eq_usable]; exact h))
 
+/-- the count the station rule uses, in terms of the input -/
+theorem distinctTargets_localRev (pts : List (Pt K)) (os : List (Obs K)) :
+    distinctTargets (os.map (localRev pts)) = Spec.usableTargets pts os := by
+  unfold distinctTargets Spec.usableTargets
+  rw [List.filter_map, List.map_map]
+  have h1 : (isActiveDir ∘ localRev pts) = (fun o : Obs K => o.ty == .direction && (o.active && Spec.usable pts o)) := by
+    funext o
+    simp [isActiveDir, localRev, reqOk_eq_usable]
+  have h2 : ((fun o : Obs K => o.to) ∘ localRev pts) = (fun o : Obs K => o.to) := by
+    funext o; rfl
+  rw [h1, h2]
+
+/-- completeness: each of the three reasons makes the observation passive -/
+theorem reason_passive (pts : List (Pt K)) (c : Cluster K) (o : Obs K)
+    (h : o.active = false ∨ Spec.usable pts o = false ∨
+      (c.stand = true ∧ o.ty = .direction ∧ distinctTargets (c.obs.map (localRev pts)) < 2)) :
+    (if c.stand && decide (distinctTargets (c.obs.map (localRev pts)) < 2)
+      then passDir (localRev pts o) else localRev pts o).active = false := by
+  have hp : ∀ q : Obs K, q.active = false → (passDir q).active = false := by
+    intro q hq; unfold passDir; split <;> simp [hq]
+  rcases h with h | h | ⟨h1, h2, h3⟩
+  · have : (localRev pts o).active = false := by simp [localRev, h]
+    split
+    · exact hp _ this
+    · exact this
+  · have : (localRev pts o).active = false := by simp [localRev, reqOk_eq_usable, h]
+    split
+    · exact hp _ this
+    · exact this
+  · have hf : (c.stand && decide (distinctTargets (c.obs.map (localRev pts)) < 2)) = true := by simp [h1, h3]
+    rw [if_pos hf]
+    simp [passDir, localRev, h2]
+
 /-! ### deletion -/
 
 /-- every looked-up role of every type needs some coordinate group to take part -/
@@ -419,38 +452,6 @@ theorem filter_map_filter_map {α β γ : Type} (l : List α) (f : α → β) (n
     · have : ne2 (h a) = true := by rw [← ha.2]; exact hne
       simp only [if_true, List.map_cons, List.filter_cons, ha.1, this]
       rw [ih']
-
-theorem activeView_delete (n : Net K) : activeView (revise (delete n)) = activeView (revise n) := by
-  have hP : ∀ p ∈ (revise n).pts.filter Pt.active, revisePt p = p := by
-    intro p hp
-    have hp' : p ∈ n.pts.map revisePt := (List.mem_filter.mp hp).1
-    obtain ⟨q, _, rfl⟩ := List.mem_map.mp hp'
-    exact revisePt_idem q
-  have hD : ((revise n).pts.filter Pt.active).map revisePt = (revise n).pts.filter Pt.active :=
-    map_revisePt_fix _ hP
-  have hgood : ∀ c ∈ (revise n).cls, Good (revise n).pts c := by
-    intro c hc
-    have hc' : c ∈ (revisionPoints n).cls.map (reviseCl (revisionPoints n).pts) := hc
-    obtain ⟨c0, _, rfl⟩ := List.mem_map.mp hc'
-    exact good_reviseCl _ c0
-  unfold activeView
-  have e1 : (revise (delete n)).pts = (revise n).pts.filter Pt.active := hD
-  have e2 : (revise (delete n)).cls =
-      (((revise n).cls.map keepActive).filter (fun c => !c.obs.isEmpty)).map
-        (reviseCl ((revise n).pts.filter Pt.active)) := by
-    show ((delete n).cls.map (reviseCl ((delete n).pts.map revisePt))) = _
-    show ((((revise n).cls.map keepActive).filter (fun c => !c.obs.isEmpty)).map
-      (reviseCl (((revise n).pts.filter Pt.active).map revisePt))) = _
-    rw [hD]
-  rw [e1, e2, List.map_map]
-  congr 1
-  · rw [List.filter_filter]; congr 1; funext p; simp
-  · exact filter_map_filter_map (revise n).cls keepActive (fun c => !c.obs.isEmpty) _ _ _
-      (fun c hc => by
-        have := reviseCl_keepActive (revise n).pts c (hgood c hc)
-        refine ⟨?_, rfl⟩
-        simp only [Function.comp]
-        rw [this.1, this.2])
 
 section abs
 variable [Scalar K]
